@@ -1928,16 +1928,25 @@ insert_list:
         }
         if (!q.th || !cnt || !m_ooo_resume)
             return;
-        SCOPED_LOCK(q.lock);
-        for (auto th = q.th->next();
-                  th!= q.th && cnt;
-                  th = th->next()) {
-            SCOPED_LOCK(th->lock);
-            auto& c = th->semaphore_count;
-            if (c <= cnt) {
-                cnt -= c;
-                prelocked_thread_interrupt(th, -1);
+        // out-of-order scan. thread.lock must be taken before the waitq lock
+        // (as prelocked_thread_interrupt() and the timeout path do), and
+        // dequeuing takes the waitq lock itself, so pick a candidate under
+        // q.lock, release it, then lock the candidate and re-validate.
+        while (cnt) {
+            thread* cand = nullptr;
+            {
+                SCOPED_LOCK(q.lock);
+                auto head = q.th;
+                if (!head) return;
+                for (auto th = head->next(); th != head; th = th->next())
+                    if (th->semaphore_count <= cnt) { cand = th; break; }
             }
+            if (!cand) return;
+            SCOPED_LOCK(cand->lock);
+            if (cand->waitq != (thread_list*)&q ||
+                cand->semaphore_count > cnt) continue;
+            cnt -= cand->semaphore_count;
+            prelocked_thread_interrupt(cand, -1);
         }
     }
     inline bool semaphore::try_subtract(uint64_t count) {
